@@ -150,6 +150,9 @@ static void note_thread (int me) {
 }
 static void note_observer (void) {
 	int x, i; unsigned left;
+	/* only nsync_note_wait may legitimately still be blocked here: every other call must have returned */
+	for (i = 0; i < h_nthreads; i++) if (!mc_fiber_done (i) && !waiting[i].active)
+		mc_fail ("T%d is blocked for ever inside a note operation that is not a wait (notify / is_notified / new / free never returned)", i);
 	/* nobody may be asleep on a note whose cause is complete */
 	for (i = 0; i < MC_MAXF; i++) if (waiting[i].active) {
 		if (cause_done (waiting[i].x)) mc_fail ("T%d is still asleep in nsync_note_wait (%c) although the note (or an ancestor) was notified / its deadline passed and no notification is in progress", i, letters[waiting[i].x]);
